@@ -272,7 +272,7 @@ def rule_eval(ctx, facts):
     need = {'fixed', 'north', 'south', 'unevaluable'}
     if not need <= kinds:
         ctx.finding('C18:RULE|coverage', 'C18-R rule evaluation', span, f'expected result paths for {sorted(need)}, seen {sorted(kinds)}')
-    ctx.rule('C18-R footer rule: fixed, daylight window start <= ts < end in either hemisphere, standard when not computable', total, good, floor=5, sample={'cases': sorted(kinds)})
+    ctx.rule('C18-R footer rule: fixed, daylight window start <= ts < end in either hemisphere, standard when not computable', total, good, floor=3, sample={'cases': sorted(kinds)})
     N.judge(kinds=('ARITH', 'BOUNDS', 'CAST', 'UNWRAP', 'PANIC', 'STDPRE'))
 
 
@@ -402,7 +402,10 @@ def rule_days(ctx, facts):
                                     if len(rest.co) != 1 or rest.c0 != 0:
                                         msg = f'the day of year is not (days before the month) + (day of month taken from weekdays_in_month): {D.aff_of(doy_[1])} vs start {D.aff_of(start)}'
                                     elif (wl, wh) == (5, 5):
-                                        if not rec['last']:
+                                        # the last element: slice.last(), or element number len - 1
+                                        by_index = [g for g in rec['get'] if g[1][0][0] == 'slice' and g[1][1][0] == 'i'
+                                                    and D.aff_equiv(D.aff_of(g[1][1][1]), D.Aff({g[1][0][1]['len']: 1}, -1), st=st)]
+                                        if not rec['last'] and not by_index:
                                             msg = 'week 5 must take the last matching weekday of the month'
                                     else:
                                         gets = [g for g in rec['get'] if g[1][1][0] == 'i' and D.aff_equiv(D.aff_of(g[1][1][1]), D.aff_add(D.aff_of(f[1]), D.aff_const(-1)), st=st)]
